@@ -54,6 +54,44 @@ func worldPDF(n int, tag string, messy []bool) []byte {
 	return d.finish(catalog)
 }
 
+// worldBrokenTree: three pages under a root that lists one of them twice, lists itself, lists an
+// integer, or has a kid without /Type.
+func worldBrokenTree(r *hx.Rng, tag string) []byte {
+	d := newPDFObjs()
+	catalog, root, f := d.alloc(), d.alloc(), d.alloc()
+	d.obj(f, "<< /Type /Font /Subtype /Type1 /BaseFont /Helvetica /Encoding /WinAnsiEncoding >>")
+	var kids []string
+	fault := r.Intn(4)
+	for i := 1; i <= 3; i++ {
+		page, cont := d.alloc(), d.alloc()
+		kids = append(kids, fmt.Sprintf("%d 0 R", page))
+		d.stream(cont, "", fmt.Sprintf("BT /F1 12 Tf 1 0 0 1 72 700 Tm (%sPAGE-%d) Tj ET", tag, i))
+		typ := "/Type /Page "
+		if fault == 3 && i == 2 {
+			typ = ""
+		}
+		d.obj(page, fmt.Sprintf("<< %s/Parent %d 0 R /Contents %d 0 R >>", typ, root, cont))
+	}
+	at := r.Intn(len(kids) + 1)
+	extra := ""
+	switch fault {
+	case 0:
+		extra = hx.Pick(r, kids)
+	case 1:
+		extra = fmt.Sprintf("%d 0 R", root)
+	case 2:
+		n := d.alloc()
+		d.obj(n, "42")
+		extra = fmt.Sprintf("%d 0 R", n)
+	}
+	if extra != "" {
+		kids = append(kids[:at], append([]string{extra}, kids[at:]...)...)
+	}
+	d.obj(root, fmt.Sprintf("<< /Type /Pages /Kids [%s] /Count 3 /MediaBox [0 0 612 792] /Resources << /Font << /F1 %d 0 R >> >> >>", strings.Join(kids, " "), f))
+	d.obj(catalog, fmt.Sprintf("<< /Type /Catalog /Pages %d 0 R >>", root))
+	return d.finish(catalog)
+}
+
 var pageToken = regexp.MustCompile(`PAGE-(\d+)`)
 
 func pagesOf(s string) string {
@@ -190,12 +228,24 @@ func runWorld(c *hx.Ctx, idx int) {
 				base = "r"
 			}
 			d.wire = fmt.Sprintf("%d:%s:p:%s", d.npages, base, bits)
-		case x < 8:
+		case x < 8 && r.Bool():
 			d.pdf, d.broken = true, true
 			d.npages = 3
 			d.path = filepath.Join(c.OutDir, fmt.Sprintf("c03-world-%d-%d.pdf", idx, i))
 			os.WriteFile(d.path, []byte("%PDF-1.4\n1 0 obj\n<< /Length 5 >>\nstream\n1 2 3"), 0o644)
 			d.wire = "x:f:p:-"
+		case x < 8:
+			// a file that opens (header, cross-reference table, trailer, catalog in order) and whose
+			// page tree does not fit ISO 32000-1 §7.7.3: the reader stays open, no page is ever reached
+			d.pdf, d.broken = true, true
+			d.npages = 3
+			d.shared = r.Chance(1, 3)
+			d.path = filepath.Join(c.OutDir, fmt.Sprintf("c03-world-%d-%d.pdf", idx, i))
+			os.WriteFile(d.path, worldBrokenTree(r, tag), 0o644)
+			d.wire = "y:f:p:-"
+			if d.shared {
+				d.wire = "y:r:p:-"
+			}
 		default:
 			f := hx.Pick(r, []string{c20.FDOCX, c20.FODT, c20.FXLSX, c20.FPPTX, c20.FHTML, c20.FEPUB})
 			d.npages = 3
@@ -402,7 +452,7 @@ func runWorld(c *hx.Ctx, idx int) {
 		}
 		i := i
 		c.Check("C03/answer-depends-on-history", got[i] == alone[i], k, func() string {
-			return fmt.Sprintf("documents %s, schedule %s: call %d (%s) answered %s; the same chain of configuration calls built on a fresh Open(f) and run alone answers %s (result class, page indices processed, /w = number of warnings returned)", strings.Join(dw, ";"), strings.Join(sw, ","), i+1, sw[i], got[i], alone[i])
+			return fmt.Sprintf("documents %s, schedule %s: call %d (%s) answered %s; the same chain of configuration calls built on a fresh Open(f) and run alone answers %s (result class, page indices processed, /w = number of warnings returned; a document x is a file cut off inside its first object, a document y a PDF that opens and whose page tree lists a page twice, itself, an integer or a kid without /Type)", strings.Join(dw, ";"), strings.Join(sw, ","), i+1, sw[i], got[i], alone[i])
 		})
 	}
 	for i := range docs {
